@@ -247,7 +247,10 @@ func (c *RetryClient) Disconnect(ctx context.Context) error {
 		}
 	}), "retryclient: disconnecting")
 	c.mu.Lock()
-	close(c.chTask)
+	if c.chTask != nil {
+		// chTask is nil if no client has been set yet.
+		close(c.chTask)
+	}
 	c.stopped = true
 	c.mu.Unlock()
 	return err
